@@ -14,12 +14,12 @@ var propertyRules = map[string][]string{
 	"C09": {"VD7", "VD6", "VD8", "VD10", "LK4", "DT2", "DT5", "DT7"},
 	"C10": {"VD1", "LK5", "LK8", "WR1", "WR3", "WR5", "VD11", "VD12", "VD14"},
 	"C11": {"VD12", "VD13", "VD15", "VD1", "VD5", "VD10", "LK2", "LK3", "LK4", "LK5", "LK8", "WR1", "WR2", "OU3", "OU4"},
-	"C12": {"DT1", "DT2", "DT3", "DT4", "DT6", "WR2", "LK6", "DT7"},
+	"C12": {"DT1", "DT2", "DT3", "DT4", "DT6", "WR2", "WR6", "LK6", "DT7"},
 	"C13": {"LK7", "WR1", "WR3", "WR6", "DT2"},
 	"C14": {"VD8", "VD7", "VD13", "DT5", "DT7"},
-	"C15": {"RD3", "VD5", "VD13"},
+	"C15": {"RD3", "RD2", "VD5", "VD13"},
 	"C16": {"OU1", "OU2", "OU3", "WR5", "VD1", "VD10", "VD11"},
-	"C17": {"OU4", "VD12", "VD15", "DT4", "DT6", "DT5", "VD13"},
+	"C17": {"OU4", "WR6", "VD12", "VD15", "DT4", "DT6", "DT5", "VD13"},
 	"C18": {"ST1", "ST2", "LK1", "LK2", "WR1", "WR2"},
 	"C19": {"OU5", "OU6", "OU7", "OU8", "VD8", "DT1"},
 	"C20": {"VD9", "VD1", "ST2", "DT4", "DT6", "DT5", "LK4", "WR5"},
